@@ -187,3 +187,32 @@ def harvested_corpus(entries, max_per_entry=40):
         for _, b in lst[:max_per_entry]:
             out.append((e, b))
     return out
+
+
+def ip_packet(rng, wild=True):
+    """an IPv4 packet with a crafted option region; often cut exactly at the end of the header"""
+    region = bytearray()
+    for _ in range(rng.randrange(0, 5)):
+        r = rng.random()
+        if r < 0.2:
+            region.append(1)
+        elif r < 0.25:
+            region.append(0)
+        else:
+            t = rng.choice([7, 0x83, 0x89, 0x82, 0x88, 0x44, 0x94, 0x81, 0x21, 2, 30])
+            n = rng.choice([0, 1, 2, 3, 4, 7, 9])
+            ln = n + 2
+            if wild and rng.random() < 0.35:
+                ln = rng.choice([0, 1, n + 3, n + 4, n + 5, n + 6, 255, n + 1])
+            region += bytes([t, ln & 0xff]) + bytes(rng.randrange(256) for _ in range(n))
+    while len(region) % 4:
+        region.append(rng.choice([0, 0, 1]))
+    region = region[:40]
+    ihl = 5 + len(region) // 4
+    payload = bytes(rng.randrange(256) for _ in range(rng.choice([0, 0, 0, 1, 4, 8, 20])))
+    tot = ihl * 4 + len(payload)
+    proto = rng.choice([253, 253, 17, 6, 1, 0])
+    hdr = struct.pack('>BBHHHBBHII', 0x40 | (ihl if not wild or rng.random() < 0.9 else rng.choice([0, 4, 15, ihl + 1])), rng.randrange(256),
+                      tot if rng.random() < 0.8 else rng.choice([0, tot + 7, 20, 65535]), rng.randrange(65536), rng.choice([0, 0, 0x2000, 0x4000, 5]),
+                      rng.randrange(256), proto, 0, rng.randrange(1 << 32), rng.randrange(1 << 32))
+    return hdr + bytes(region) + payload
